@@ -99,6 +99,19 @@ def make_general_poisson_solver(
     mat = matrix.tocsc()
     vec = vector.toarray()[:, 0]
 
+    def is_solution(result: NumericArray, rhs: NumericArray) -> bool:
+        """Tests whether `result` solves the linear problem.
+
+        The residual is only meaningful if the round-off of `mat @ result` is below
+        the tolerance: for singular matrices, both solvers can return multiples of a
+        null vector of magnitude 1/eps, which then pass the residual test by chance.
+        """
+        with np.errstate(all="ignore"):
+            noise = np.finfo(float).eps * abs(mat).max() * np.abs(result).max()
+        return bool(
+            noise < 1e-5 and np.allclose(mat.dot(result), rhs, rtol=1e-5, atol=1e-5)
+        )
+
     def solve_poisson(arr: NumericArray, out: NumericArray) -> None:
         """Solves Poisson's equation using sparse linear algebra."""
         # prepare the right hand side vector
@@ -122,7 +135,7 @@ def make_general_poisson_solver(
 
         else:
             # test whether the solution is good enough
-            if np.allclose(mat.dot(result), rhs, rtol=1e-5, atol=1e-5):
+            if is_solution(result, rhs):
                 logger.info("Solved Poisson problem with sparse.linalg.spsolve")
                 use_leastsquares = False
             else:
@@ -134,7 +147,7 @@ def make_general_poisson_solver(
         if use_leastsquares:
             # use least squares to solve an underdetermined problem
             result = sparse.linalg.lsmr(mat, rhs)[0]
-            if not np.allclose(mat.dot(result), rhs, rtol=1e-5, atol=1e-5):
+            if not is_solution(result, rhs):
                 residual = np.linalg.norm(mat.dot(result) - rhs)
                 msg = f"Poisson problem could not be solved (Residual: {residual})"
                 raise RuntimeError(msg)
